@@ -10,7 +10,7 @@ use crate::driver::{expected_obs, observe_response, RespObs};
 use crate::engine::{guarded, hex, show, unhex, Report, Tier, Violation};
 use crate::refmodel::head;
 
-pub const RULE: &str = "every head of the small-scope grammar: version {1.0,1.1} x status {101,200,204,299,301,302,304,307,399,404,500,999} x reason {none, empty, OK, 300-byte with obs-text} x all ordered field lists of length 0..=2 (thorough 0..=3) over a 15-entry pool (incl. a value with UTF-8 encoded Unicode white space at both ends and one with tabs inside) (repeated names, no OWS, OWS both sides, empty value, obs-text, Location, Content-Length, Set-Cookie, Transfer-Encoding: chunked, two Connection spellings) plus heads with 0,1,127,128 (accepted) and 129,130,200 (rejected) fields; for every head EVERY prefix length and the head followed by {1 byte, garbage, a second response, a stray CRLF, CRLF CRLF and a response}; entry points Flow::try_response (GET flow, HEAD flow, POST flow with Expect: 100-continue whose caller gave up waiting, and the same flow after try_read_100 took the same window as a refusal and the body was skipped), Call::try_response, parser::try_parse_response::<128>; each prefix on a fresh object AND all prefixes in growing order on one object followed by the complete head. plus call sequences: equal-length prefixes of two different heads offered one after the other, from the same buffer, to different entry points, with the library's logging off and at level Trace. distinct = distinct (head, entry point) pairs whose every prefix was checked";
+pub const RULE: &str = "every head of the small-scope grammar: version {1.0,1.1} x status {101,200,204,299,301,302,304,307,399,404,500,999} x reason {none, empty, OK, 300-byte with obs-text} x all ordered field lists of length 0..=2 (thorough 0..=3) over a 18-entry pool (incl. a value with UTF-8 encoded Unicode white space at both ends and one with tabs inside) (repeated names, no OWS, OWS both sides, empty value, obs-text, Location, Content-Length, Set-Cookie, Transfer-Encoding: chunked, two Connection spellings, list values with empty or white-space-only elements, a 20-digit zero-padded length), every other status 101..=999 over HTTP/1.1 with three small field lists, plus heads with 0,1,127,128 (accepted) and 129,130,200 (rejected) fields; for every head EVERY prefix length and the head followed by {1 byte, garbage, a second response, a stray CRLF, CRLF CRLF and a response}; entry points Flow::try_response (GET flow, HEAD flow, POST flow with Expect: 100-continue whose caller gave up waiting, and the same flow after try_read_100 took the same window as a refusal and the body was skipped), Call::try_response, parser::try_parse_response::<128>; each prefix on a fresh object AND all prefixes in growing order on one object followed by the complete head. plus call sequences: equal-length prefixes of two different heads offered one after the other, from the same buffer, to different entry points, with the library's logging off and at level Trace. distinct = distinct (head, entry point) pairs whose every prefix was checked";
 
 const FRONTS: [&str; 6] = ["flow-GET", "flow-HEAD", "call", "parser", "flow-POST-expect", "flow-POST-refused"];
 
@@ -24,12 +24,21 @@ enum Out {
     Skip,
 }
 
-fn call_front(front: &str, bases: &Bases, input: &[u8]) -> Result<(Out, bool), String> {
-    crate::engine::with_aliased(input, |input| call_front_at(front, bases, input))
+fn call_front(front: &str, bases: &Bases, input: &[u8], follow: &[u8]) -> Result<(Out, bool), String> {
+    crate::engine::with_aliased(input, |input| call_front_at(front, bases, input, follow))
 }
 
-fn call_front_at(front: &str, bases: &Bases, input: &[u8]) -> Result<(Out, bool), String> {
-    // returns (outcome, side-condition ok: not ready & state unchanged when NeedMore)
+/// An object whose internal state changed while it answered "need more data" is not wrong for that alone:
+/// it is then offered the complete head (+ tail) and must answer exactly like an object that never saw the prefix.
+fn flow_follow_up_agrees(mut seen: ureq_proto::client::flow::Flow<(), ureq_proto::client::flow::state::RecvResponse>, mut fresh: ureq_proto::client::flow::Flow<(), ureq_proto::client::flow::state::RecvResponse>, follow: &[u8]) -> bool {
+    let a = seen.try_response(follow).map(|(n, r)| (n, r.map(|r| observe_response(&r)))).map_err(|e| format!("{:?}", e));
+    let b = fresh.try_response(follow).map(|(n, r)| (n, r.map(|r| observe_response(&r)))).map_err(|e| format!("{:?}", e));
+    a == b && seen.can_proceed() == fresh.can_proceed()
+}
+
+fn call_front_at(front: &str, bases: &Bases, input: &[u8], follow: &[u8]) -> Result<(Out, bool), String> {
+    // returns (outcome, side-condition ok: after NeedMore not ready, and either the internal state is unchanged
+    // or the object still answers the complete head like a fresh one)
     match front {
         "flow-GET" | "flow-HEAD" | "flow-POST-expect" => {
             let mut f = match front {
@@ -38,8 +47,9 @@ fn call_front_at(front: &str, bases: &Bases, input: &[u8]) -> Result<(Out, bool)
                 _ => bases.post_expect.clone(),
             };
             let fp = f.verif_fingerprint();
+            let fresh = f.clone();
             match f.try_response(input) {
-                Ok((0, None)) => Ok((Out::NeedMore, !f.can_proceed() && f.verif_fingerprint() == fp)),
+                Ok((0, None)) => Ok((Out::NeedMore, !f.can_proceed() && (f.verif_fingerprint() == fp || flow_follow_up_agrees(f, fresh, follow)))),
                 Ok((n, None)) => Ok((Out::Consumed(n), true)),
                 Ok((n, Some(r))) => Ok((Out::Resp(n, observe_response(&r)), f.can_proceed())),
                 Err(e) => Ok((Out::Err(format!("{:?}", e)), true)),
@@ -58,8 +68,9 @@ fn call_front_at(front: &str, bases: &Bases, input: &[u8]) -> Result<(Out, bool)
                 Err(e) => return Err(format!("Await100::proceed: {:?}", e)),
             };
             let fp = f.verif_fingerprint();
+            let fresh = f.clone();
             match f.try_response(input) {
-                Ok((0, None)) => Ok((Out::NeedMore, !f.can_proceed() && f.verif_fingerprint() == fp)),
+                Ok((0, None)) => Ok((Out::NeedMore, !f.can_proceed() && (f.verif_fingerprint() == fp || flow_follow_up_agrees(f, fresh, follow)))),
                 Ok((n, None)) => Ok((Out::Consumed(n), true)),
                 Ok((n, Some(r))) => Ok((Out::Resp(n, observe_response(&r)), f.can_proceed())),
                 Err(e) => Ok((Out::Err(format!("{:?}", e)), true)),
@@ -68,8 +79,13 @@ fn call_front_at(front: &str, bases: &Bases, input: &[u8]) -> Result<(Out, bool)
         "call" => {
             let mut c = bases.call.clone();
             let fp = c.verif_fingerprint();
+            let mut fresh = c.clone();
             match c.try_response(input) {
-                Ok(None) => Ok((Out::NeedMore, !c.is_finished() && c.verif_fingerprint() == fp)),
+                Ok(None) => Ok((Out::NeedMore, !c.is_finished() && (c.verif_fingerprint() == fp || {
+                    let a = c.try_response(follow).map(|o| o.map(|(n, r)| (n, observe_response(&r)))).map_err(|e| format!("{:?}", e));
+                    let b = fresh.try_response(follow).map(|o| o.map(|(n, r)| (n, observe_response(&r)))).map_err(|e| format!("{:?}", e));
+                    a == b && c.is_finished() == fresh.is_finished()
+                }))),
                 Ok(Some((n, r))) => Ok((Out::Resp(n, observe_response(&r)), c.is_finished())),
                 Err(e) => Ok((Out::Err(format!("{:?}", e)), true)),
             }
@@ -119,7 +135,9 @@ fn check_cell(h: &[u8], nfields: usize, front: &str, bases: &Bases, p: usize, ta
     if p >= h.len() {
         input.extend_from_slice(tail);
     }
-    let r = guarded(|| call_front(front, bases, &input));
+    let mut follow = h.to_vec();
+    follow.extend_from_slice(tail);
+    let r = guarded(|| call_front(front, bases, &input, &follow));
     let (out, side_ok) = match r {
         Ok(Ok(x)) => x,
         Ok(Err(e)) => return Some((format!("C05:harness:{}", front), e)),
@@ -137,7 +155,7 @@ fn check_cell(h: &[u8], nfields: usize, front: &str, bases: &Bases, p: usize, ta
             Out::Skip => None,
             Out::NeedMore => {
                 if !side_ok {
-                    return Some((format!("C05:prefix-side-effect:{}", front), format!("strict prefix ({} of {} bytes): need-more-data returned but the state changed / became ready", p, h.len())));
+                    return Some((format!("C05:prefix-side-effect:{}", front), format!("strict prefix ({} of {} bytes): need-more-data returned but the object became ready, or its internal state changed and it no longer answers the complete head like a fresh object", p, h.len())));
                 }
                 None
             }
@@ -366,6 +384,12 @@ pub fn all_heads(tier: Tier) -> Vec<(Vec<u8>, usize, bool)> {
                     heads.push((head(&sl, &fs), fs.len(), true));
                 }
             }
+        }
+    }
+    // the status code is data: every code 101..=999 with three small field lists (short heads: all prefixes anyway)
+    for s in (101..=999u16).filter(|s| !STATUSES.contains(s)) {
+        for fs in [&[][..], &[&b"Content-Length: 3"[..]][..], &[&b"Location: /x"[..], &b"Connection: keep-alive"[..]][..]] {
+            heads.push((head(&status_line("1.1", s, Some(b"OK")), fs), fs.len(), false));
         }
     }
     for n in [0usize, 1, 127, 128, 129, 130, 200] {
